@@ -335,6 +335,7 @@ func runC14(c *Check) {
 		c.Unk("C14-R3", "height-write", "", "", "anchor lost: no write of the height record")
 	}
 	ruleHeightNotAheadOfDisk(c, p)
+	ruleWriteMethodsWrite(c, p)
 
 	// ---- R4
 	// the height codec: the store package's func(uint64) []byte / func([]byte) (uint64, error) pair
@@ -765,4 +766,72 @@ func encFnOf(p *Prog) *ssa.Function {
 func callsStatic(t *Term, fn *ssa.Function) bool {
 	cv, ok := t.V.(*ssa.Call)
 	return ok && cv.Common().StaticCallee() == fn
+}
+
+// ruleWriteMethodsWrite (C14-R5): a store method that writes reports success only after the
+// datastore write succeeded: every return that may be a success either returns the write's own
+// error or lies behind the success edge of a Put / Commit. The one exception is the monotone
+// height record, whose writer is a no-op (and says so by returning nil) when the height does
+// not grow; that guard is C14-R3's subject.
+func ruleWriteMethodsWrite(c *Check, p *Prog) {
+	rule := "C14-R5"
+	c.Doc(rule, "EO: every store method that writes returns success only behind the success of its datastore write (reads return the last value written: no write is silently skipped).")
+	n := 0
+	for _, fn := range p.Funcs {
+		pk := fnPkg(fn)
+		if pk == nil || pk.Pkg.Path() != storePkg || fn.Parent() != nil || fn.Signature.Recv() == nil || !strings.HasSuffix(fn.Signature.Recv().Type().String(), "DefaultStore") {
+			continue
+		}
+		if corrResult(fn) < 0 || resultTypes(fn) != "error" {
+			continue
+		}
+		g := BuildECFG(p, fn, ExpandOpts{MaxDepth: 0})
+		isWrite := func(t *Term) bool {
+			return t.Op == "invoke" && strings.HasPrefix(t.Name, "(github.com/ipfs/go-datastore.") && (strings.HasSuffix(t.Name, ").Put") || strings.HasSuffix(t.Name, ").Commit") || strings.HasSuffix(t.Name, ").Delete"))
+		}
+		writes := g.Select(func(x *Node) bool { return dsCall(x, "Put") || dsCall(x, "Commit") || dsCall(x, "Delete") })
+		if len(writes) == 0 {
+			continue
+		}
+		c.NoteGraph(g)
+		n++
+		writeOK := g.Select(ErrNilEdge(isWrite))
+		var bad *Node
+		for _, x := range g.Exits {
+			if g.ExitClass(x) == rcA {
+				continue
+			}
+			ret := x.In.(*ssa.Return)
+			rt := TermOf(spilledResult(ret, 0), x.Ctx)
+			if isWrite(rt) {
+				continue // returns the write's own error
+			}
+			xx := x
+			if g.PathAvoiding([]*Node{g.Entry}, func(y *Node) bool { return y == xx }, nodeSet(writeOK)) == nil {
+				continue
+			}
+			// the monotone height record: a no-op when the height does not grow
+			noGrow := false
+			for _, f := range g.NecessaryEdges(func(y *Node) bool { return y == xx }) {
+				t, pol := normFact(f.Cond, f.Pol)
+				if t.Op == "bin" && len(t.Args) == 2 && t.Args[0].Op == "param" && strings.Contains(t.Args[1].String(), "DefaultStore).Height(") &&
+					((t.Name == "<=" && pol) || (t.Name == ">" && !pol)) {
+					noGrow = true
+				}
+			}
+			if !noGrow {
+				bad = x
+			}
+		}
+		inst := fnShort(fn) + " ⟂ success-only-after-write"
+		if bad == nil {
+			c.OK(rule, inst, fnName(fn), p.Pos(fn.Pos()), "every success return follows a successful datastore write (or returns the write's own error)", true)
+		} else {
+			c.Bad(rule, inst, fnName(fn), p.InstrPos(bad.In), "the method can report success without having written: a later read returns the previous value although the write was acknowledged", nil)
+		}
+	}
+	if n == 0 {
+		c.Unk(rule, "write-methods", "", "", "anchor lost: no writing method of DefaultStore found")
+	}
+	c.MinInstances(rule, 4)
 }
